@@ -535,7 +535,8 @@ class Job:
                 self._statepoint_requires_init = False
             self.statepoint.reset(new_statepoint)
 
-        self._project._register(self.id, new_statepoint)
+        # Register a copy of the resulting data rather than the caller's mapping.
+        self._project._register(self.id, self.statepoint())
 
     @property
     def sp(self):
